@@ -99,3 +99,15 @@ def register(PROPS, CLASSIFIERS, REPLAY_RUNNERS):
                "c17-single-file-invalid-python", "c17-service-alias-raw-identifier",
                "c17-single-file-stub-name-collision"):
         CLASSIFIERS[_n] = _c17cls(_n)
+
+    # ------------------------------------------------------------------ C15 actors
+    def _c15_replay_oracle(case, obs, flavor):
+        """replay files of C15 carry their own payload (`case["c15"]`: commands + op sequence over an actor tree)"""
+        if "c15" not in case:
+            return []
+        from . import c15
+        return c15.replay_problems(case["c15"], flavor)
+    PROPS["C15"] = {"flavors": ["sync", "async"], "streams": [], "oracles": [_c15_replay_oracle],
+                    "q_checks": [_lazy("c15", "c15_actors")], "lake_targets": ["driver_actors"]}
+    from . import c15cls
+    CLASSIFIERS.update(c15cls.CLASSIFIERS)
